@@ -16,6 +16,7 @@ import (
 )
 
 type specFn struct {
+	isLemma bool
 	name   string
 	params []types.Type
 	result types.Type
@@ -81,7 +82,7 @@ func LoadProg(repo string, patterns []string, verifDir string) (*Prog, error) {
 	return P, nil
 }
 
-var reSpec = regexp.MustCompile(`^;;\s*spec\s+(\w+)\s*\(([^)]*)\)\s*(\w+)\s*$`)
+var reSpec = regexp.MustCompile(`^;;\s*(spec|lemma)\s+(\w+)\s*\(([^)]*)\)\s*(\w*)\s*$`)
 
 func specType(s string) (types.Type, error) {
 	switch s {
@@ -126,8 +127,8 @@ func (P *Prog) loadSpecs(dir string) error {
 			if m == nil {
 				continue
 			}
-			sf := &specFn{name: m[1], file: f}
-			for _, p := range strings.Split(m[2], ",") {
+			sf := &specFn{name: m[2], file: f, isLemma: m[1] == "lemma"}
+			for _, p := range strings.Split(m[3], ",") {
 				p = strings.TrimSpace(p)
 				if p == "" {
 					continue
@@ -139,11 +140,15 @@ func (P *Prog) loadSpecs(dir string) error {
 				}
 				sf.params = append(sf.params, t)
 			}
-			t, err := specType(m[3])
-			if err != nil {
-				return fmt.Errorf("%s: %v", f, err)
+			if sf.isLemma {
+				sf.result = boolT
+			} else {
+				t, err := specType(m[4])
+				if err != nil {
+					return fmt.Errorf("%s: %v", f, err)
+				}
+				sf.result = t
 			}
-			sf.result = t
 			P.specs[sf.name] = sf
 		}
 	}
